@@ -267,7 +267,7 @@ def run(ctx):
     ctx.level = "proof"
     ctx.assumptions += [
         "exact real arithmetic in the theorems: sums, minima and maxima over a multiset do not depend on the order; the round-off of the different summation orders is bounded empirically (tolerance below)",
-        "slope limiter and half-step prediction are uninterpreted per-cell maps (they can only write the gradients / the primitives of their own cell)",
+        "the theorems hold for any per-cell slope limiter and half-step prediction (maps that can only write the gradients / the primitives of their own cell) and are instantiated with the models of apply_slope_limiter and predict_primitive_variables (…_code theorems; bit-exact Float correspondence in C04)",
         "schedule_independent / execution_layout_independent: tasks are atomic state transformers (a parallel run is serialised in the order the tasks complete; that concurrently running tasks touch disjoint subgrids and that every task runs exactly once after its parents is C07, the lock discipline behind it C08)",
         "single_thread_deterministic: in the model one thread leaves no scheduling choice (the order is a function of the layout and of the queue discipline, independent of the hydro data); absence of other nondeterminism sources (uninitialised memory, time, addresses) is only tested by the bit comparison of two one-thread runs; that the loop runs all tasks is C07's progress theorem",
     ]
